@@ -12,6 +12,9 @@ from rebound import clibrebound as L
 
 from . import layout as _layout
 
+# a second handle on the same loaded library: private ctypes function objects whose restype/argtypes
+# the Python layer never overwrites
+L2 = ctypes.CDLL(rebound.__libpath__)
 BUILDDIR = os.path.dirname(os.path.dirname(os.path.abspath(rebound.__file__)))
 LAYOUT = _layout.load(BUILDDIR)
 
@@ -315,3 +318,35 @@ def setf_ptr(sim, path, value):
 def getf_ptr(sim, path):
     off, size, kind, decl = SIM.m[path]
     return struct.unpack("<Q", string_at(addr(sim) + off, 8))[0]
+
+
+# ---- recording heartbeat ---------------------------------------------------------------------------
+def hb_attach(sim):
+    fn = ctypes.cast(L.verif_heartbeat, c_void_p).value
+    setf_ptr(sim, "heartbeat", fn)
+
+
+def hb_detach(sim):
+    setf_ptr(sim, "heartbeat", 0)
+
+
+def hb_reset():
+    L.verif_hb_reset()
+
+
+def hb_take():
+    """-> list of dict(steps_done,t,dt,dt_last_done,status,N) for every boundary reached"""
+    n = L.verif_hb_count()
+    out = []
+    sd, t, dt, dld, st, N = c_uint64(), ctypes.c_double(), ctypes.c_double(), ctypes.c_double(), c_int(), ctypes.c_uint()
+    for i in range(n):
+        L.verif_hb_get(i, byref(sd), byref(t), byref(dt), byref(dld), byref(st), byref(N))
+        out.append(dict(steps_done=sd.value, t=t.value, dt=dt.value, dt_last_done=dld.value, status=st.value, N=N.value))
+    if L.verif_hb_overflow():
+        raise RuntimeError("harness: heartbeat log overflow")
+    L.verif_hb_reset()
+    return out
+
+
+def dbits(x):
+    return struct.pack("<d", x)
